@@ -422,6 +422,194 @@ def run_case(ctx, case, rng, seedbase):
         p.close()
 
 
+def run_handler_kex(ctx, case, rng):
+    """The server's exec handler (runs on the server's transport thread) writes stdout chunks, stderr and the exit
+    status while a key exchange is in progress on the server; those messages are queued until NEWKEYS and must reach
+    the client in the order written, exit status last."""
+    out = cm.stream_bytes("hk/%s" % case["seed"], "out", sum(n for k, n in case["writes"] if k == "out"))
+    err = cm.stream_bytes("hk/%s" % case["seed"], "err", sum(n for k, n in case["writes"] if k == "err"))
+    p = pair.Pair(rng=rng)
+    wrote = []
+
+    def handler(chanid, command):
+        ch = p.ts._channels.get(chanid)
+        po = pe = 0
+        for k, n in case["writes"]:
+            if k == "out":
+                ch.sendall(out[po:po + n])
+                po += n
+            else:
+                ch.sendall_stderr(err[pe:pe + n])
+                pe += n
+            wrote.append(k)
+        ch.send_exit_status(case["status"])
+        wrote.append("status")
+        return True
+
+    p.server.policy.update(check_channel_exec_request=handler)
+    cm.watch(p.tc, p.rec, "c")
+    cm.watch(p.ts, p.rec, "s")
+    try:
+        if not p.start() or not p.auth():
+            ctx.inconclusive("handshake failed (handler during kex)")
+            return
+        cm.diverge_ids(p, rng)
+        c, s = p.session()
+        p.link.ab.hold()  # the client's exec request waits behind the gate
+        errs = []
+        te = threading.Thread(target=lambda: _try(errs, lambda: c.exec_command("run")), daemon=True)
+        te.start()
+        if not pair.wait_for(lambda: len(p.link.ab.held) > 0, 20, 0.002):
+            ctx.inconclusive("exec request not behind the gate")
+            return
+        n_kex = len(p.msgs("s", "out", (20,)))
+        tk = threading.Thread(target=lambda: _try(errs, p.ts.renegotiate_keys), daemon=True)
+        tk.start()
+        if not pair.wait_for(lambda: len(p.msgs("s", "out", (20,))) > n_kex, 20, 0.002):
+            p.link.ab.release()
+            ctx.inconclusive("server KEXINIT not seen (handler during kex)")
+            return
+        p.link.ab.release()  # the request is handled inside the server's key exchange
+        tk.join(90)
+        te.join(90)
+        if tk.is_alive() or te.is_alive() or errs:
+            ctx.inconclusive("exec / re-key did not complete: %s" % errs)
+            return
+        # was the request really read inside the server's kex window?
+        inside = False
+        open_kex = False
+        for e in p.rec.snapshot():
+            if e.get("kind") == "msg" and e["side"] == "s":
+                if e["dir"] == "out" and e["type"] == 20:
+                    open_kex = True
+                elif e["dir"] == "out" and e["type"] == 21:
+                    open_kex = False
+                elif e["dir"] == "in" and e["type"] == cm.REQUEST and open_kex:
+                    inside = True
+        if inside:
+            ctx.count("handler_writes_during_kex")
+            ctx.count("messages_queued_by_handler", len(wrote))
+        rd = cm.PollReader(c, rng.getrandbits(32), 40000, keep=True).start()
+        ok = pair.wait_for(lambda: rd.got["out"] >= len(out) and rd.got["err"] >= len(err), 30, 0.002)
+        st = [None]
+        t = threading.Thread(target=lambda: st.__setitem__(0, c.recv_exit_status()), daemon=True)
+        t.start()
+        t.join(30)
+        p.wait_quiet(0.05, 5)
+        rd.settle()
+        rd.stop()
+        if t.is_alive():
+            ctx.inconclusive("exit status never arrived (handler during kex)")
+            return
+        desc = dict(case=case, inside_kex=inside)
+        if bytes(rd.data["out"]) != out:
+            d = cm.first_diff(bytes(rd.data["out"]), out)
+            ctx.violation("stdout written by a request handler during a key exchange arrives altered or out of order",
+                          "client read %d stdout bytes, first difference at %d of %d" % (len(rd.data["out"]), d, len(out)), desc)
+        if bytes(rd.data["err"]) != err:
+            ctx.violation("stderr written by a request handler during a key exchange arrives altered or out of order",
+                          "client read %d stderr bytes of %d" % (len(rd.data["err"]), len(err)), desc)
+        if st[0] != case["status"]:
+            ctx.violation("exit status reported differs from the one sent", "handler sent %d, client got %r" % (case["status"], st[0]), desc)
+        # wire order on the server's tap: exit-status after every data message of that channel, data in written order
+        seq = []
+        for e in p.msgs("s", "out", (cm.DATA, cm.EXT, cm.REQUEST)):
+            m = cm.parse(e["payload"])
+            if m["rcpt"] == s.remote_chanid:
+                seq.append("status" if e["type"] == cm.REQUEST else "out" if e["type"] == cm.DATA else "err")
+        ctx.count("handler_kex_wire_orders_checked")
+        if "status" in seq and seq.index("status") != len(seq) - 1:
+            ctx.violation("exit-status sent before data the handler had written earlier",
+                          "wire order on the server: %s" % seq[:12], desc)
+        ctx.count("handler_kex_cases")
+    finally:
+        p.close()
+
+
+def _try(errs, fn):
+    try:
+        fn()
+    except Exception as e:
+        errs.append(repr(e))
+
+
+COMBINE_WHEN = ("before_data", "mid_stream", "after_eof", "after_close")
+
+
+def run_combine_matrix(ctx, case, rng):
+    """When is set_combine_stderr(True) called: before any data, mid-stream, after the peer's EOF was received (stdout
+    read to EOF first), after the peer's CLOSE was received; with stderr unread or partly read.  Every stderr byte not
+    yet read through recv_stderr must then come out of recv, in order, none lost."""
+    out = cm.stream_bytes("cmx/%s" % case["seed"], "out", case["n_out"])
+    err = cm.stream_bytes("cmx/%s" % case["seed"], "err", case["n_err"])
+    p = pair.Pair(rng=rng)
+    cm.watch(p.tc, p.rec, "c")
+    cm.watch(p.ts, p.rec, "s")
+    try:
+        if not p.start() or not p.auth():
+            ctx.inconclusive("handshake failed (combine matrix)")
+            return
+        cm.diverge_ids(p, rng)
+        c, s = p.session()
+        w, r = (s, c) if case["direction"] == "s2c" else (c, s)
+        when = case["when"]
+        r.settimeout(30)
+        got_recv, got_stderr = bytearray(), bytearray()
+        if when == "before_data":
+            r.set_combine_stderr(True)
+        half_o, half_e = len(out) // 2, len(err) // 2
+        w.sendall(out[:half_o])
+        w.sendall_stderr(err[:half_e])
+        if when == "mid_stream":
+            pair.wait_for(lambda: len(r.in_buffer) + len(r.in_stderr_buffer) == half_o + half_e, 20, 0.002)
+            if case["partly_read"] and half_e:
+                got_stderr += r.recv_stderr(max(1, half_e // 3))
+            r.set_combine_stderr(True)
+        w.sendall(out[half_o:])
+        w.sendall_stderr(err[half_e:])
+        if when in ("after_eof", "after_close"):
+            if when == "after_eof":
+                w.shutdown_write()
+                pair.wait_for(lambda: r.eof_received, 20, 0.002)
+            else:
+                w.close()
+                pair.wait_for(lambda: r.closed, 20, 0.002)
+            if not (r.eof_received or r.closed):
+                ctx.inconclusive("peer EOF/CLOSE not received (combine matrix)")
+                return
+            while True:  # the application reads stdout to EOF; stderr stays (partly) unread
+                b = r.recv(rng.randint(1, 5000))
+                if not b:
+                    break
+                got_recv += b
+            if case["partly_read"] and len(err):
+                got_stderr += r.recv_stderr(max(1, len(err) // 3))
+            ctx.count("combine_after_eof_or_close")
+            r.set_combine_stderr(True)
+        else:
+            w.shutdown_write()
+        # read stdout (again) to EOF
+        while True:
+            b = r.recv(rng.randint(1, 5000))
+            if not b:
+                break
+            got_recv += b
+        ctx.count("combine_matrix_cases")
+        low, high = cm.split_streams(bytes(got_recv))
+        desc = dict(case=case, via_recv=len(high), via_recv_stderr=len(got_stderr), left_in_stderr_buffer=len(r.in_stderr_buffer))
+        if low != out:
+            ctx.violation("stdout stream differs (combine matrix, %s)" % when, "stdout bytes read differ from those written", desc)
+        if bytes(got_stderr) + high != err:
+            kind = "lost" if len(got_stderr) + len(high) < len(err) else "altered or duplicated"
+            ctx.violation("stderr bytes %s when combining is switched on %s" % (kind, when.replace("_", " ")),
+                          "recv_stderr gave %d, recv gave %d stderr bytes, %d were written; %d still sit in the stderr buffer" % (
+                              len(got_stderr), len(high), len(err), len(r.in_stderr_buffer)), desc)
+        else:
+            ctx.count("combine_matrix_stderr_complete")
+    finally:
+        p.close()
+
+
 def run_close_race(ctx, case, rng):
     """The client close()s its channels while the server's exit-status + EOF + CLOSE are still in flight (the
     server->client direction is held or slow).  The status the server sent must still be reported."""
@@ -482,6 +670,19 @@ def run(ctx):
     cm.install()
     rng = ctx.rng
     for i in range(ctx.pick(4, 30)):
+        j = i * ctx.nshards + ctx.shard
+        writes = [(rng.choice(("out", "out", "err")), rng.choice((1, 100, 5000, 40000))) for _ in range(2 + j % 5)]
+        case = dict(kind="handler-writes-during-kex", writes=writes, status=rng.choice(STATUSES[:-1]), seed=j)
+        ctx.guard(run_handler_kex, ctx, case, rng)
+        ctx.case(("c21-hk", repr(case)), sample=case if i == 0 else None)
+    for i in range(ctx.pick(8, 48)):
+        j = i * ctx.nshards + ctx.shard
+        case = dict(kind="combine-switch-matrix", when=COMBINE_WHEN[j % 4], partly_read=bool(j // 4 % 2),
+                    direction=("s2c", "c2s")[j // 8 % 2], n_out=rng.choice((0, 1, 3000, 70000)),
+                    n_err=rng.choice((1, 10, 3000, 50000)), seed=j)
+        ctx.guard(run_combine_matrix, ctx, case, rng)
+        ctx.case(("c21-cmx", repr(case)), sample=case if i == 0 else None)
+    for i in range(ctx.pick(4, 30)):
         k = 1 + i % 3
         case = dict(kind="close-while-status-in-flight", k=k, mode=("hold", "latency")[i % 2], server_ends=i % 4 != 3,
                     statuses=[rng.choice(STATUSES[:-1]) for _ in range(k)])
@@ -514,3 +715,9 @@ def run(ctx):
     ctx.require("window_limited_data_msgs", 40)
     ctx.require("statuses_arriving_after_own_close", 20)
     ctx.require("close_race_cases", 24)
+    ctx.require("handler_kex_cases", 24)
+    ctx.require("handler_writes_during_kex", 20)
+    ctx.require("messages_queued_by_handler", 60)
+    ctx.require("combine_matrix_cases", 48)
+    ctx.require("combine_after_eof_or_close", 24)
+    ctx.require("combine_matrix_stderr_complete", 48)
